@@ -183,4 +183,19 @@ REG = {
          "(relative error ~1e-10, not rounding). Vegas called directly with init>0 (restart) is outside the statement. The vector handed to the integrand by Vegas has 10 "
          "entries; only the first `dimension` are checked for containment.",
     technique="TLA+ memo specification without history variable + model of Miser's generator state (TLC: refuted without reset, proved with) + trace validation of calls recorded in fresh processes and after random histories (seed hook)"),
+ "C13": dict(
+    engine="spec/NestedQuad.tla, MC_Nested.tla, Trace_Nested.tla, Rat.tla; harness/c13.cpp",
+    design_ref="DESIGN.md §4.13",
+    text="NestedQuad.tla computes the exact rational integral of separable integer polynomials over integer boxes whose axes have disjoint ranges, the orientation sign, "
+         "and the number of integrand evaluations of the fixed-order rules (order^dim, order taken from the method parameter); its nest machine states the wiring invariant "
+         "(component k of every leaf carries axis k). TLC enumerates method x dimension x orientation pattern x parameter x polynomial triple and exports each case; the "
+         "replayer runs Integrate / Integrate_2D / Integrate_3D with a wrapper that reports arguments outside the range of their own axis and counts calls. Trace_Nested "
+         "accepts a case only if no argument was mis-wired, fixed-order rules made exactly order^dim calls (so the parameter reaches every level), the value with its sign is "
+         "within the method's tolerance. Recorded smooth families (damped oscillation, rational, Gaussian) check each method's accuracy, bit-exact negation under reversed "
+         "limits, zero for equal limits and containment; the spherical overload is checked on shells and angular sub-ranges through the norm, polar cosine and azimuth of "
+         "every vector handed to the integrand and the closed-form value.",
+    note="Accuracy is relative to the L1 norm of the integrand; non-polynomial families are restricted to parameter ranges where fixed-order rules are regular. Nested 3D "
+         "Trapezoidal is not executed (8.6e9 evaluations). A known finding is listed for Trapezoidal (about 7e-6 instead of 1e-6 on damped oscillations). Monte-Carlo "
+         "methods of the 2D/3D front ends are decided by C14.",
+    technique="exact-rational TLA+ model of separable nested integrals with a wiring invariant (TLC enumerates method x dimension x orientation x parameter), replay of exported cases with an argument-range-checking integrand, trace validation"),
 }
